@@ -10,6 +10,8 @@ import Corro.Props.C20
 #print axioms Corro.WritePool.extracted_pool_cfg_valid
 #print axioms Corro.LockOrder.ordered_acquisition_deadlock_free
 #print axioms Corro.LockOrder.extracted_programs_ordered
+#print axioms Corro.LockOrder.extracted_ranking_lock_order
 #print axioms Corro.LockOrder.extracted_programs_nontrivial
 #print axioms Corro.LockOrder.extracted_instances_deadlock_free
 #print axioms Corro.LockOrder.swapped_order_deadlocks
+#print axioms Corro.LockOrder.blocking_send_under_conn_deadlocks
